@@ -7,6 +7,9 @@ Two parts, merged into one context:
     keys of 2 GiB / 4 GiB (lengths 2^31 + d, 2^32 + d in a sparse anonymous mapping between inaccessible pages),
     plus std::hash of equal fixed strings across storage layouts; oracle = the
     independently written refs/C14_murmur_ref.hpp (itself checked against the SMHasher verification values).
+    ALIAS (alias_scen.cpp + alias_main.cpp): keys whose bytes were last written through lvalues of 19 element types x 8 shapes x
+    element counts x {g++, clang++} x {-O0..-O3} builds without sanitizer; HIST: all histories up to a depth over two std::hash
+    objects and two fixed-string objects (the hasher object's history).
   * fixed-string coherence: the C01 explorer (error kinds 'C14:'), every reachable raw state of every layout.
 """
 import os
@@ -48,9 +51,48 @@ BUILDS = {
 }
 
 
+# ALIAS part: the scenario translation unit alias_scen.cpp is compiled once per (compiler, optimisation flags) WITHOUT sanitizer (what a
+# client's release build does) and linked with the driver object (alias_main.cpp, always g++ -O0, no xtl header)
+ALIAS_SCEN = os.path.join(HERE, "alias_scen.cpp")
+ALIAS_MAIN = os.path.join(HERE, "alias_main.cpp")
+ALIAS_BUILDS = {}
+for _c, _cn in (("g++", "gxx"), ("clang++", "clang")):
+    for _o in ("-O0", "-O1", "-O2", "-O3"):
+        ALIAS_BUILDS["c14-alias-%s%s" % (_cn, _o)] = dict(compiler=_c, opt=_o, flags=(), tiers=("quick", "thorough"))
+    ALIAS_BUILDS["c14-alias-%s-Os" % _cn] = dict(compiler=_c, opt="-Os", flags=(), tiers=("thorough",))
+    ALIAS_BUILDS["c14-alias-%s-O2-noinline" % _cn] = dict(compiler=_c, opt="-O2", flags=("-fno-inline",), tiers=("thorough",))
+# the scenario table must be exactly this product (alias_scen.cpp): 19 element types, 18 of them with element counts {1,2,3,5,6} and
+# long double with one element, x 6 compile-time shapes, + 2 run-time shapes per type, x 3 functions; 8 fixed-string types x 8 lengths
+ALIAS_EXPECT = (3 * ((18 * 5 + 1) * 6 + 19 * 2), 8 * 8)
+ALIAS_NMAX = {"quick": 12, "thorough": 64}
+ALIAS_NLOOPS = {"quick": "4,7", "thorough": "4,7,16"}
+HIST_DEPTH = {"quick": 4, "thorough": 5}
+
+
 def build(tag, expect_fail=False):
+    if tag in ALIAS_BUILDS:
+        return build_alias(tag)
     kw = BUILDS[tag]
     return vlib.compile_cxx(SRC, tag, std="c++14", expect_fail=expect_fail, **kw)
+
+
+def build_alias_driver():
+    # an object file ("-c"): g++ -O0, no sanitizer; its cache name contains the hash of its preprocessed source
+    return vlib.compile_cxx(ALIAS_MAIN, "c14-alias-driver.o", std="c++14", opt="-O0", san="none", compiler="g++", flags=("-c",))
+
+
+def build_alias(tag, driver=None):
+    kw = ALIAS_BUILDS[tag]
+    if driver is None:
+        driver = build_alias_driver()
+    what = " ".join((kw["opt"],) + tuple(kw["flags"]))
+    return vlib.compile_cxx(ALIAS_SCEN, tag, std="c++14", opt=kw["opt"], san="none", compiler=kw["compiler"], flags=tuple(kw["flags"]),
+                            defines=("C14_ALIAS_OPT=" + what,), libs=(driver,), expect_fail=(kw["compiler"] != "g++"))
+
+
+def _alias_jobs(tier):
+    return [(t, ["--part", "alias", "--nmax", str(ALIAS_NMAX[tier]), "--nloops", ALIAS_NLOOPS[tier], "--expect", str(ALIAS_EXPECT[0]), str(ALIAS_EXPECT[1])], True)
+            for t in ALIAS_BUILDS if tier in ALIAS_BUILDS[t]["tiers"]]
 
 
 def _lens(lmax):
@@ -89,8 +131,9 @@ def _huge_jobs(tier):
 def plan(tier):
     """list of (build tag, argv, primary): 'primary' jobs define evaluations / distinct_nontrivial, the others re-run a sub-space on
     another build (other optimisation level / compiler) and are counted separately."""
-    jobs = []
+    jobs = _alias_jobs(tier)   # first: on a cold cache each of them starts with a compilation
     if tier == "quick":
+        jobs.append(("c14-O1-asan", ["--part", "hist", "--depth", str(HIST_DEPTH[tier])], True))
         n = 4
         for k in range(n):
             jobs.append(("c14-O1-asan", ["--part", "main", "--lmax", "39", "--shard", str(k), str(n)], True))
@@ -112,6 +155,9 @@ def plan(tier):
     jobs.append(("c14-O1-asan", ["--part", "fs"], True))
     jobs.append(("c14-O1-asan", ["--part", "fslong"], True))
     jobs.append(("c14-O1-asan", ["--part", "fswide"], True))
+    n = 9
+    for k in range(n):   # sharded by the first operation of the history
+        jobs.append(("c14-O1-asan", ["--part", "hist", "--depth", str(HIST_DEPTH[tier]), "--shard", str(k), str(n)], True))
     n = 14
     for k in range(n):
         jobs.append(("c14-O1-asan", ["--part", "long", "--lmax", "16500", "--lmain", "71", "--wide-seeds", "1", "--shard", str(k), str(n)], True))
@@ -130,6 +176,7 @@ def plan(tier):
         jobs.append((tag, ["--part", "fs"], False))
         jobs.append((tag, ["--part", "fslong"], False))
         jobs.append((tag, ["--part", "fswide"], False))
+        jobs.append((tag, ["--part", "hist", "--depth", "4"], False))
         jobs.append((tag, ["--part", "long", "--lmax", "4200"], False))
     for k in range(n):   # all 256^4 four-byte keys, value only (no sanitizer), two seeds, offsets 0 and 1
         jobs.append(("c14-O2-nosan", ["--part", "full", "--len", "4", "--pairs", "1", "--two-seeds", "1", "--placements", "R", "--fills", "255",
@@ -142,8 +189,17 @@ def _sort_key(v):
     # the shortest / first case of every signature first (main part before guard pages before other builds), so that the
     # counterexample that gets reported does not depend on scheduling
     head = a[0] if a else ""
-    rank = {"--one": 0, "--long-one": 0, "--huge-one": 0, "--guard-one": 1, "--fs-one": 2, "--fs-long-one": 2, "--fsw-one": 2}.get(head, 3)
-    if head == "--long-one":
+    rank = {"--one": 0, "--long-one": 0, "--huge-one": 0, "--guard-one": 1, "--fs-one": 2, "--fs-long-one": 2, "--fsw-one": 2, "--hist-one": 2}.get(head, 3)
+    if head == "--alias-one":
+        # fewest elements first, then the simplest shape, then value set / seed; the builds in the order g++ -O0 .. -O3, clang++ -O0 .. -O3
+        shapes = ["local1", "local", "loop", "static", "heap", "viacall", "param", "loopparam"]
+        size = 100 * int(a[4]) + (shapes.index(a[3]) if a[3] in shapes else 99)
+        a = [a[7], a[8], a[5], a[6]] + a[:3]
+    elif head == "--alias-fs-one":
+        size = int(a[2])
+    elif head == "--hist-one":
+        size = len(a[2].split(","))
+    elif head == "--long-one":
         size = 2 * int(a[5])
     elif head == "--huge-one":
         size = 2 * int(a[4])
@@ -156,20 +212,26 @@ def _sort_key(v):
         size = len(a[-1].strip("-"))
     else:
         size = int(a[2]) if rank == 1 else 0
-    return (v["sig"], 0 if v.get("harness") == "c14-O1-asan" else 1, rank, size, a)
+    return (v["sig"], 0 if v.get("harness") == "c14-O1-asan" else 1, rank, size, a, _build_order(v.get("harness")))
+
+
+def _build_order(tag):
+    order = sorted(ALIAS_BUILDS, key=lambda t: (ALIAS_BUILDS[t]["compiler"] != "g++", ALIAS_BUILDS[t]["opt"], ALIAS_BUILDS[t]["flags"]))
+    return order.index(tag) if tag in order else -1
 
 
 def run(ctx):
     jobs = plan(ctx.tier)
-    tags = sorted(set(j[0] for j in jobs))
+    tags = sorted(set(j[0] for j in jobs if j[0] not in ALIAS_BUILDS))
     bins = {}
+    alias_driver = build_alias_driver()   # once, before the parallel section (0.5 s); the 8 scenario builds are done by their jobs
     have = dict(zip(tags, vlib.parallel([(lambda t=t: build(t, expect_fail=(BUILDS[t]["compiler"] != "g++"))) for t in tags])))
     for t in tags:
         if have[t] is None:
             ctx.note("build %s is not available on this machine (compiler failed); its jobs were dropped" % t)
         else:
             bins[t] = have[t]
-    jobs = [j for j in jobs if j[0] in bins]
+    jobs = [j for j in jobs if j[0] in bins or j[0] in ALIAS_BUILDS]
     workers = max(2, min(vlib.NCPU - 2, 14))
 
     def one(job):
@@ -178,6 +240,14 @@ def run(ctx):
         left = ctx.time_left() - 45
         if left < 10:
             sub.cap("%s %s: not started, the tier's deadline was reached" % (tag, " ".join(args)))
+            return sub
+        if tag in ALIAS_BUILDS:
+            binary = build_alias(tag, alias_driver)
+            if binary is None:
+                sub.note("ALIAS build %s is not available on this machine (compiler failed); it was dropped" % tag)
+                sub.stat("alias_builds_not_available", 1)
+                return sub
+            sub.run_harness(binary, args, tag=tag)
             return sub
         sub.run_harness(bins[tag], args + ["--deadline", str(int(left))], env=ASAN_ENV, tag=tag)
         return sub
@@ -216,8 +286,8 @@ def run(ctx):
             own_samples.setdefault("band" if "--band" in args else args[1], []).extend(sub.samples)
         ctx.viols += sub.viols
     # a few samples of every part
-    for part in ("main", "long", "band", "huge", "full", "guard", "fs", "fslong", "fswide"):
-        for s in own_samples.get(part, [])[:3 if part == "main" else 1]:
+    for part in ("main", "alias", "hist", "long", "band", "huge", "full", "guard", "fs", "fslong", "fswide"):
+        for s in own_samples.get(part, [])[:2 if part == "main" else 1]:
             ctx.sample(s)
 
     # fixed-string explorer (C01 harness): every new raw state answers the hash query once
@@ -293,6 +363,12 @@ def replay(ctx, rec):
     tag = rec.get("harness")
     if tag in fscommon.INSTS:
         fscommon.replay(ctx, rec, "C14")
+        return
+    if tag in ALIAS_BUILDS:
+        binary = build_alias(tag)
+        if binary is None:
+            raise vlib.HarnessError("ALIAS build %s cannot be built on this machine" % tag)
+        ctx.run_harness(binary, rec["args"], tag=tag)
         return
     if tag not in BUILDS:
         raise vlib.HarnessError("unknown harness tag in replay record: %r" % tag)
